@@ -789,14 +789,18 @@ class Session:
             return
         if aligned:
             desc["outcome"] = "done"
-            # documented net effect: chain[i+1] -> position of chain[i]; chain[0] -> position of chain[-1]
+            # documented: the first assembly is exchanged with each later one in turn; for distinct members the net effect is
+            # chain[i+1] -> position of chain[i], chain[0] -> position of chain[-1]. Stationary blocks stay where they are.
             n = len(chain)
-            for i in range(n):
-                self.at[ps[i]] = chain[(i + 1) % n]
-            for i in range(n):
-                x, p = chain[(i + 1) % n], ps[i]
+            posof = {id(a): p_ for a, p_ in zip(chain, ps)}
+            for lvl in range(1, n):
+                x, y = chain[0], chain[lvl]
+                posof[id(x)], posof[id(y)] = posof[id(y)], posof[id(x)]
+            for a in chain:
+                p_ = posof[id(a)]
+                self.at[p_] = a
                 for k in kss[0]:
-                    self.seq[id(x)][k] = self.stat[p + (k,)][0]
+                    self.seq[id(a)][k] = self.stat[p_ + (k,)][0]
             if kss[0] and n > 1:
                 rec.hit("stationary.exchanged")
             if n > 1:
@@ -819,7 +823,7 @@ class Session:
             loc = a.spatialLocator
             ij = tuple(int(x) for x in loc.indices[:2]) if getattr(loc, "grid", None) is self.core.spatialGrid else None
             landed[id(a)] = ij
-        if sorted(p for p in landed.values() if p is not None) != sorted(ps):
+        if sorted(p for p in landed.values() if p is not None) != sorted(set(ps)):  # a member may be named twice
             self.viol("location/refused-cascade-left-members-outside-their-cells", "members %s of a refused cascade over %s" % (landed, ps))
             self.resync()
             return
@@ -950,6 +954,11 @@ class Session:
         kind = rng.choice(kinds)
         if kind == "swap" and len(here) >= 2:
             a, b = rng.sample(here, 2)
+            if rng.random() < 0.06:
+                # a search that returns the same assembly for both roles: an exchange with itself changes nothing
+                self.rec.hit("op.swap.with-itself")
+                self.op_swap(a, a)
+                return
             if rng.random() < 0.5:
                 # prefer a partner with the same stationary layout so that most swaps are accepted
                 same = [x for x in here if x is not a and self.ks(x) == self.ks(a)]
@@ -963,6 +972,10 @@ class Session:
             if len(pool) < n - 1:
                 pool = [x for x in here if x is not first]
             chain = [first] + rng.sample(pool, n - 1)
+            if rng.random() < 0.12:
+                # an assembly named twice (swapCascade warns and goes on: it is the documented sequence of pairwise swaps)
+                self.rec.hit("op.cascade.member-named-twice")
+                chain.insert(rng.randint(1, len(chain)), rng.choice(chain))
             if rng.random() < 0.25:
                 # None entries (a findAssembly that found nothing): mostly further down, sometimes in the first place
                 for _ in range(rng.choice([1, 1, 2])):
